@@ -3,6 +3,7 @@ package main
 // Verification-condition generator: go/ssa function -> passive-form SMT definitions + obligations.
 
 import (
+	"regexp"
 	"math/big"
 	"fmt"
 	"go/token"
@@ -152,6 +153,7 @@ type gen struct {
 	privParams map[*ssa.Parameter]bool // list parameters the contract declares private (and the body treats so)
 	privViolations []string
 	privLists map[*ssa.Call]bool // lists made by list.New() that never leave this function's hands
+	counted map[string]bool // call names the contract counts with calls(NAME)
 	siteInstr ssa.Instruction        // the call a site assertion is being evaluated at
 	siteOrd   map[ssa.Instruction]int // ordinal of each call among the calls to the same name, in source order
 	roCondTerm string
@@ -1093,6 +1095,10 @@ func (P *Program) generate(fn *ssa.Function, con *Contract, opts genOpts) (vc *V
 	g.siteAnalysis()
 	// entry state
 	st := &state{heap: map[string]string{}, cells: map[*ssa.Alloc]string{}, epoch: "0"}
+	for n := range g.counted {
+		g.heapSorts["GHOST.calls."+n] = "Int"
+		st.heap["GHOST.calls."+n] = "0"
+	}
 	g.declare("top0", "Int")
 	g.assert("(>= top0 0)")
 	g.top0 = "top0"
@@ -1410,6 +1416,26 @@ func describeInstr(in ssa.Instruction) string {
 
 var _ = strings.Join
 
+var countedCallRe = regexp.MustCompile(`calls\(([A-Za-z0-9_]+)\)`)
+
+// countCall bumps the ghost counter of calls named like this one (see calls(NAME) in the contract language).
+func (g *gen) countCall(c *ssa.CallCommon, st *state) {
+	if len(g.counted) == 0 {
+		return
+	}
+	n := calledName(c)
+	if !g.counted[n] {
+		return
+	}
+	h := "GHOST.calls." + n
+	g.heapSorts[h] = "Int"
+	cur, ok := st.heap[h]
+	if !ok {
+		cur = "0"
+	}
+	st.heap[h] = g.define("calls."+n, "Int", app("+", cur, "1"))
+}
+
 // calledName: the short name a site clause uses for a call: the function or method name.
 func calledName(c *ssa.CallCommon) string {
 	if c.IsInvoke() {
@@ -1439,6 +1465,26 @@ func calledName(c *ssa.CallCommon) string {
 // siteAnalysis numbers the calls of each name in source order and reports site clauses naming no call.
 func (g *gen) siteAnalysis() {
 	g.siteOrd = map[ssa.Instruction]int{}
+	g.counted = map[string]bool{}
+	if g.con != nil {
+		// calls(NAME) in a contract: a ghost counter of the calls of that name this function has made so far
+		var texts []string
+		for _, l := range [][]*Clause{g.con.Requires, g.con.Ensures, g.con.Sites, g.con.Always} {
+			for _, c := range l {
+				texts = append(texts, c.Text)
+			}
+		}
+		for _, lc := range g.con.Loops {
+			for _, c := range lc.Invariants {
+				texts = append(texts, c.Text)
+			}
+		}
+		for _, t := range texts {
+			for _, m := range countedCallRe.FindAllStringSubmatch(t, -1) {
+				g.counted[m[1]] = true
+			}
+		}
+	}
 	if g.con == nil || len(g.con.Sites) == 0 {
 		return
 	}
